@@ -375,7 +375,8 @@ func c19Over300() []string {
 	for i := 0; i < 21; i++ {
 		ops = append(ops, "mint|0|32767") // 315 outputs on one keyset
 	}
-	return append(ops, "restore|0", "mint|0|255", "send|0|100|1", "recv|1|0|0", "restore|0", "mint|0|7")
+	// ... and a rotation after all that: the new keyset's outputs must be found from counter 0
+	return append(ops, "restore|0", "mint|0|255", "send|0|100|1", "recv|1|0|0", "restore|0", "mint|0|7", "rotate|a|100", "mint|0|7")
 }
 
 func c19ThreeBatches() []string {
